@@ -33,6 +33,8 @@ CHECKS = {
          TB + "Collections whose level-richest component is not unique or is a single piece are not judged (the code raises ValueError there; whether that violates C08 is ambiguous).", TECH, "4/C08"),
  "C12": ("TLC enumerates every series of 2..5 samples on a half-integer lattice with one-ulp displacement classes and irregular abscissae, checks bracketing / on-the-line / once-per-pair / monotone-once as invariants of Regrid.tla and emits the exact report; every series is presented to the real regrid() and build_head_mapping() at dyadic and non-dyadic steps and at small and UNIX-epoch abscissae: ids must match exactly in order, positions within 1e-9 (1e-5 s at epoch scale).",
          TB + "One-ulp classes only with power-of-two steps; steps 0.1 / 0.3 only with generic-position samples; interpolant other than linear is not modelled.", TECH, "4/C12"),
+ "C13": ("After real workflows on Hydro.tla behaviours (three time steps, grid steps 1 / 0.5 / 2 mm) and on the field datasets, the members and *_interval_zeta rows are recorded together with the CLASSIFIED intervals of the right kind and their own samples; TLC (TraceProvenance.tla, re-using Regrid.tla) re-derives every crossing value from the owner's samples (rises: the segment from zero depth at the initial level to the storm's total depth at the final level), checks ownership, levels within the grid, and grid = floor(min/step)..ceil(max/step)-1 without holes.",
+         TB + "Exact (1e-5 step) on lattice datasets; on field data single-crossing rows of intervals <= 60 samples at 0.03-step resolution, rise values only loosely (ownership and grid membership exactly).", "TLA+ trace validation (TLC re-derives each stored row from the specification's Regrid operators)", "4/C13"),
 }
 
 NOT_APPLICABLE = {
